@@ -212,7 +212,7 @@ class ArithFunctions(InterpreterFunctions):
         lhs: int
         rhs: int
         (lhs, rhs) = args
-        assert rhs >= 0
+        interpreter.interpreter_assert(rhs >= 0, "shift amount out of range")
         assert isa(op.result.type, builtin.IndexType | builtin.IntegerType)
         # Bits shifted out of the type's bitwidth are discarded
         return (to_signed(lhs << rhs, _int_bitwidth(interpreter, op.result.type)),)
@@ -224,7 +224,7 @@ class ArithFunctions(InterpreterFunctions):
         lhs: int
         rhs: int
         (lhs, rhs) = args
-        assert rhs >= 0
+        interpreter.interpreter_assert(rhs >= 0, "shift amount out of range")
         return (lhs >> rhs,)
 
     @impl(arith.DivSIOp)
@@ -234,7 +234,7 @@ class ArithFunctions(InterpreterFunctions):
         lhs: int
         rhs: int
         (lhs, rhs) = args
-        assert rhs != 0
+        interpreter.interpreter_assert(rhs != 0, "division by zero")
         div = abs(lhs) // abs(rhs)
         if (lhs > 0) != (rhs > 0):
             div = -div
@@ -247,7 +247,7 @@ class ArithFunctions(InterpreterFunctions):
         lhs: int
         rhs: int
         (lhs, rhs) = args
-        assert rhs != 0
+        interpreter.interpreter_assert(rhs != 0, "division by zero")
         div = abs(lhs) // abs(rhs)
         if (lhs > 0) != (rhs > 0):
             div = -div
@@ -260,7 +260,7 @@ class ArithFunctions(InterpreterFunctions):
         lhs: int
         rhs: int
         (lhs, rhs) = args
-        assert rhs != 0
+        interpreter.interpreter_assert(rhs != 0, "division by zero")
         return (lhs // rhs,)
 
     @impl(arith.IndexCastOp)
